@@ -1705,4 +1705,141 @@ theorem run_inv {α} (f : File α) (H W : Nat) (ops : List Op) : ∀ (s : Stack)
       exact ih s1 (applyOp_inv s f H W hi op (hp op (List.mem_cons_self ..)) s1 ha)
         (fun o ho => hp o (List.mem_cons_of_mem _ ho)) s' h
 
+/-! ## Part VII — `Kymo._tiff_timestamp_ranges` -/
+
+theorem foldl_imin_spec (l : List Int) : ∀ m : Int,
+    (l.foldl (fun m y => if y < m then y else m) m = m ∨ l.foldl (fun m y => if y < m then y else m) m ∈ l) ∧
+    l.foldl (fun m y => if y < m then y else m) m ≤ m ∧
+    ∀ v ∈ l, l.foldl (fun m y => if y < m then y else m) m ≤ v := by
+  induction l with
+  | nil => intro m; simp
+  | cons x xs ih =>
+    intro m
+    simp only [List.foldl_cons]
+    obtain ⟨h1, h2, h3⟩ := ih (if x < m then x else m)
+    by_cases hx : x < m
+    · simp only [hx, if_true] at h1 h2 h3 ⊢
+      refine ⟨?_, by omega, ?_⟩
+      · rcases h1 with h | h
+        · right; rw [h]; exact List.mem_cons_self ..
+        · right; exact List.mem_cons_of_mem _ h
+      · intro v hv
+        rcases List.mem_cons.mp hv with rfl | hv
+        · exact h2
+        · exact h3 v hv
+    · simp only [hx, if_false] at h1 h2 h3 ⊢
+      refine ⟨?_, h2, ?_⟩
+      · rcases h1 with h | h
+        · left; exact h
+        · right; exact List.mem_cons_of_mem _ h
+      · intro v hv
+        rcases List.mem_cons.mp hv with rfl | hv
+        · omega
+        · exact h3 v hv
+
+theorem foldl_imax_spec (l : List Int) : ∀ m : Int,
+    (l.foldl (fun m y => if m < y then y else m) m = m ∨ l.foldl (fun m y => if m < y then y else m) m ∈ l) ∧
+    m ≤ l.foldl (fun m y => if m < y then y else m) m ∧
+    ∀ v ∈ l, v ≤ l.foldl (fun m y => if m < y then y else m) m := by
+  induction l with
+  | nil => intro m; simp
+  | cons x xs ih =>
+    intro m
+    simp only [List.foldl_cons]
+    obtain ⟨h1, h2, h3⟩ := ih (if m < x then x else m)
+    by_cases hx : m < x
+    · simp only [hx, if_true] at h1 h2 h3 ⊢
+      refine ⟨?_, by omega, ?_⟩
+      · rcases h1 with h | h
+        · right; rw [h]; exact List.mem_cons_self ..
+        · right; exact List.mem_cons_of_mem _ h
+      · intro v hv
+        rcases List.mem_cons.mp hv with rfl | hv
+        · exact h2
+        · exact h3 v hv
+    · simp only [hx, if_false] at h1 h2 h3 ⊢
+      refine ⟨?_, h2, ?_⟩
+      · rcases h1 with h | h
+        · left; exact h
+        · right; exact List.mem_cons_of_mem _ h
+      · intro v hv
+        rcases List.mem_cons.mp hv with rfl | hv
+        · omega
+        · exact h3 v hv
+
+/-- All starts and stops of the line ranges (`np.array(ranges)` flattened). -/
+def endpoints (lines : List (Int × Int)) : List Int := lines.flatMap fun r => [r.1, r.2]
+
+theorem mem_endpoints (lines : List (Int × Int)) (v : Int) :
+    v ∈ endpoints lines ↔ ∃ r ∈ lines, v = r.1 ∨ v = r.2 := by
+  unfold endpoints
+  simp [List.mem_flatMap]
+
+/-- `kymoRange` is the minimum and the maximum over all endpoints. -/
+theorem kymoRange_spec (lines : List (Int × Int)) (hne : lines ≠ []) :
+    ∃ lo hi, kymoRange lines = some (lo, hi) ∧ lo ∈ endpoints lines ∧ hi ∈ endpoints lines ∧
+      ∀ v ∈ endpoints lines, lo ≤ v ∧ v ≤ hi := by
+  unfold kymoRange
+  cases hfl : (lines.flatMap fun r => [r.1, r.2]) with
+  | nil =>
+    exfalso
+    cases lines with
+    | nil => exact hne rfl
+    | cons r rs => simp at hfl
+  | cons x xs =>
+    have he : endpoints lines = x :: xs := hfl
+    obtain ⟨a1, a2, a3⟩ := foldl_imin_spec xs x
+    obtain ⟨b1, b2, b3⟩ := foldl_imax_spec xs x
+    refine ⟨_, _, rfl, ?_, ?_, ?_⟩
+    · rw [he]
+      rcases a1 with h | h
+      · rw [h]; exact List.mem_cons_self ..
+      · exact List.mem_cons_of_mem _ h
+    · rw [he]
+      rcases b1 with h | h
+      · rw [h]; exact List.mem_cons_self ..
+      · exact List.mem_cons_of_mem _ h
+    · intro v hv
+      rw [he] at hv
+      rcases List.mem_cons.mp hv with rfl | hv
+      · exact ⟨a2, b2⟩
+      · exact ⟨a3 v hv, b3 v hv⟩
+
+
+/-- Lines in time order, each with `start ≤ stop`: the single frame runs from the first start to the last stop. -/
+theorem kymoRange_ordered (l : List (Int × Int)) (hne : l ≠ []) (hwf : ∀ r ∈ l, r.1 ≤ r.2)
+    (hs : l.Pairwise fun r s => r.1 ≤ s.1 ∧ r.2 ≤ s.2) :
+    kymoRange l = some ((l.head hne).1, (l.getLast hne).2) := by
+  obtain ⟨lo, hi, hk, hlo, hhi, hall⟩ := kymoRange_spec l hne
+  have hfirst : ∀ r ∈ l, (l.head hne).1 ≤ r.1 := by
+    cases l with
+    | nil => exact absurd rfl hne
+    | cons h t =>
+      intro r hr
+      rcases List.mem_cons.mp hr with rfl | hr
+      · exact le_refl _
+      · exact ((List.pairwise_cons.mp hs).1 r hr).1
+  have hlast : ∀ r ∈ l, r.2 ≤ (l.getLast hne).2 := by
+    intro r hr
+    have hsplit := List.dropLast_append_getLast hne
+    rw [← hsplit] at hs hr
+    rcases List.mem_append.mp hr with hr | hr
+    · exact ((List.pairwise_append.mp hs).2.2 r hr _ (List.mem_singleton_self _)).2
+    · rw [List.mem_singleton] at hr; rw [hr]
+  have hhead_mem : l.head hne ∈ l := List.head_mem hne
+  have hlast_mem : l.getLast hne ∈ l := List.getLast_mem hne
+  have e1 : lo = (l.head hne).1 := by
+    have h1 := (hall _ ((mem_endpoints l _).mpr ⟨_, hhead_mem, Or.inl rfl⟩)).1
+    obtain ⟨r, hr, hv⟩ := (mem_endpoints l lo).mp hlo
+    have := hfirst r hr
+    have := hwf r hr
+    rcases hv with hv | hv <;> omega
+  have e2 : hi = (l.getLast hne).2 := by
+    have h1 := (hall _ ((mem_endpoints l _).mpr ⟨_, hlast_mem, Or.inr rfl⟩)).2
+    obtain ⟨r, hr, hv⟩ := (mem_endpoints l hi).mp hhi
+    have := hlast r hr
+    have := hwf r hr
+    rcases hv with hv | hv <;> omega
+  rw [hk, e1, e2]
+
 end Verif.C18
